@@ -89,6 +89,24 @@ fn quiet_panics() {
     std::panic::set_hook(Box::new(|_| {}));
 }
 
+/// Resident-memory guard: RLIMIT_AS counts address space (reservations that are never touched, allocator arenas),
+/// which says nothing about real memory use; only the autoSql parser check keeps a (1 GiB) address-space cap. Every
+/// worker and replay process additionally watches its own resident set and aborts beyond `limit` bytes, which the
+/// driver reports as a crash of the run in progress.
+pub fn spawn_rss_guard(limit: u64) {
+    std::thread::spawn(move || loop {
+        std::thread::sleep(Duration::from_millis(100));
+        if let Ok(s) = std::fs::read_to_string("/proc/self/statm") {
+            if let Some(res) = s.split_whitespace().nth(1).and_then(|x| x.parse::<u64>().ok()) {
+                if res * 4096 > limit {
+                    eprintln!("resident set {} bytes exceeds the guard {}", res * 4096, limit);
+                    unsafe { libc::abort() };
+                }
+            }
+        }
+    });
+}
+
 pub fn set_mem_cap(bytes: u64) {
     unsafe {
         let lim = libc::rlimit {
@@ -151,6 +169,7 @@ pub fn worker(prop: &str, seed: u64, tier: &str, from: u64, to: u64, stride: u64
     if mem_cap > 0 {
         set_mem_cap(mem_cap);
     }
+    spawn_rss_guard(3 << 30);
     // sampling rate of the Python decoder (C09): every 40th image in quick, every 8th in thorough
     if std::env::var("VERIF_PY_RATE").is_err() {
         std::env::set_var("VERIF_PY_RATE", if tier == "thorough" { "8" } else { "40" });
@@ -363,6 +382,7 @@ pub fn replay_inner(path: &str, mem_cap: u64) -> i32 {
     if mem_cap > 0 {
         set_mem_cap(mem_cap);
     }
+    spawn_rss_guard(3 << 30);
     let rf = match read_replay(path) {
         Some(r) => r,
         None => {
